@@ -53,6 +53,25 @@ def maporder_across_processes(c):
 
 
 CONFIG = {
+    "C12": {
+        "profiles": BOTH,
+        "rule": "one evaluation = one execution of an entry program (resolution configuration, graph, chain, loop); distinct non-trivial = distinct program sets / "
+                "configurations; for graphs: the entry has at least one outgoing edge",
+        "floors": {"quick": {"_evaluations": 40000, "graphs_cyclic": 5000, "graphs_acyclic": 150, "chain_executions": 1000, "resolution_cases": 40,
+                             "json_bindings_compared": 10000, "hook_frames": 1000},
+                   "thorough": {"_evaluations": 200000, "graphs_cyclic": 50000}},
+        "assumptions": ASSUME_COMMON + [
+            "the depth limit value itself is not asserted: chains of <= 16 single-construct links must evaluate, 17..64 may evaluate or fail, nothing may crash",
+            "call-position precedence is tested with non-constant arguments (constant calls of built-in names are evaluated by the compiler before any binding exists)",
+            "cyclic graphs with fan-out >= 2 only use constructs that propagate a failure immediately (work budget: has/coalesce/macro bodies turn it into a value and evaluation goes on)"],
+        "technique": "runtime monitoring with a resolution-order model and a graph model (cycle detection + expected value) over exhaustive small reference graphs, each edge through one "
+                     "of twelve referencing constructs; executions on the main thread and a 2 MiB thread with crash triage; hook monitor for open frames and per-iteration depth",
+        "level_text": "All name-collision configurations for an identifier (type name / variable / program) in three positions, for a call (user function / macro / type constructor / default) "
+                      "and field-vs-method; rebinding and re-adding; JSON-bound vs directly bound values; every referencing construct x 1-, 2- and 3-cycles; all 512 three-node graphs and "
+                      "(thorough) all 65 536 four-node graphs with self-loops; chains of 1..64 links per construct; loop bodies over 1..200 elements under the frame monitor. Cycles must end "
+                      "in an error on both stack sizes, acyclic graphs in the model value. Exploration only (complete for the enumerated graphs).",
+        "level_note": "trusts the graph model (DFS, 20 lines) and the driver's crash triage",
+    },
     "C10": {
         "profiles": BOTH,
         "rule": "one evaluation = one program compiled and walked, or one execution under the trace monitor, or one injected instruction sequence executed; "
